@@ -42,66 +42,35 @@ def run(ctx):
     if not rep.check(b is not None, 'R1', 'anchor:positions', SITE, 'found', 'OccupiedSite::positions not found', 'anchor-lost'):
         return
     rep.saw(b)
-    src, chain = sc
-    names = [c[0] for c in chain]
-    allowed = {'map', 'iter', 'into_iter', 'deref'}
-    bad = [x for x in names if x not in allowed]
-    src_ok = False
-    srcdesc = src['o']
-    if src['o'] == 'call' and call_matches(src['term'], 'OccupiedSite::symmetries'):
-        sb = f.body_of_fnconst(src['term']['func'])
-        if sb is not None:
-            rep.saw(sb)
-            ts = Tracer(sb)
-            s2, ch2 = adaptor_chain(ts, {'k': 'copy', 'l': 0, 'p': []})
-            n2 = [c[0] for c in ch2]
-            src_ok = s2['o'] == 'arg' and field_path(s2['p']) == ['wyckoff', 'symmetries'] and \
-                all(x in ('iter', 'deref', 'into_iter') for x in n2)
-            srcdesc = 'self.%s via %s' % ('.'.join(field_path(s2.get('p', []))), n2)
-    elif src['o'] == 'arg' and field_path(src['p']) == ['wyckoff', 'symmetries']:
-        src_ok = True
-    rep.check(not bad and names.count('map') >= 1 and src_ok, 'R1', 'one-placement-per-operation', where(b),
-              'positions = self.wyckoff.symmetries.iter() %s' % list(reversed(names)),
-              'positions does not yield exactly one item per symmetry operation in order: adaptors %s, source %s' % (names, srcdesc))
+    from ..nest import Nest, items_source
+    nst = Nest(f, b)
+    ys = nst.calls(lambda tt: tt['func'].get('fn') == 'pk::yield')
+    loops = nst.loops_around(ys[0][0]) if len(ys) == 1 else []
+    lp = loops[0] if len(loops) == 1 else None
+    srcdesc = None
+    one = lp is not None and not lp['adaptors'] and nst.always_entered(lp) and nst.every_iteration_reaches(lp, ys[0][0])
+    if lp is not None:
+        srcdesc = items_source(f, nst.tr, {'k': 'copy', 'l': lp['iter_local'], 'p': []}) if lp['iter_local'] is not None else 'no iterator'
+    rep.check(one and srcdesc == (1, ['wyckoff', 'symmetries']), 'R1', 'one-placement-per-operation', where(b),
+              'positions yields once for every element of self.wyckoff.symmetries, in order (fused: %s)' % (nst.b.fused,),
+              'positions does not yield exactly one item per symmetry operation in order: %d yield site(s), %d loop(s), adaptors %s, '
+              'source %s' % (len(ys), len(loops), [d['adaptors'] for d in loops], srcdesc))
     for nm in (SITE, 'wallpaper::WyckoffSite'):
         mb = f.one(self_adt=nm, name='multiplicity')
         if rep.check(mb is not None, 'R1', 'anchor:multiplicity:%s' % nm, nm, 'found', 'multiplicity not found', 'anchor-lost'):
-            tm = Tracer(mb)
-            lens = [(bi, tt) for bi, tt in mb.calls() if call_matches(tt, 'Vec::<T, A>::len')]
-            ok = len(lens) == 1
+            sxm = SymEx(f)
+            mo = sxm.run(mb, [SYM('self')])
+            ok = len(mo) == 1 and not sxm.aborted
             if ok:
-                o = tm.origin(lens[0][1]['args'][0])
-                ok = o['o'] == 'arg' and field_path(o['p'])[-1:] == ['symmetries']
-                r = tm.origin({'k': 'copy', 'l': 0, 'p': []})
-                ok = ok and r['o'] == 'call' and r['bb'] == lens[0][0]
+                r = sxm.deep(mo[0].st, mo[0].ret)
+                while r[0] == 'app' and r[1].startswith('as:'):
+                    r = r[2][0]
+                ok = r[0] == 'app' and r[1].endswith('len') and len(r[2]) == 1 and r[2][0][0] == 'sym' and \
+                    r[2][0][1] in ('self.wyckoff.symmetries', 'self.symmetries')
             rep.check(ok, 'R1', 'multiplicity-is-len-of-symmetries:%s' % nm, where(mb), 'symmetries.len()',
                       'multiplicity is not the length of the symmetry vector the placements are generated from')
-    # ---- R2 composition order -------------------------------------------------------------
-    maps = [c for c in chain if c[0] == 'map']
-    maps.reverse()   # source order
-    ok1 = False
-    why = 'first map closure not found'
-    if maps:
-        co = t.origin(maps[0][1]['args'][1])
-        cb = f.body(co['rv']['closure']) if co['o'] == 'rvalue' and co['rv'].get('agg') == 'closure' else None
-        if cb is not None:
-            rep.saw(cb)
-            tc = Tracer(cb)
-            muls = [(bi, tt) for bi, tt in cb.calls() if call_matches(tt, 'Mul<transform::Transform2>>::mul', "Mul<&'b transform::Transform2>>::mul", 'Mul>::mul')]
-            if len(muls) == 1 and len(list(cb.calls())) == 1 and muls[0][1]['dest']['l'] == 0:
-                l = tc.origin(muls[0][1]['args'][0])
-                r = tc.origin(muls[0][1]['args'][1])
-                cap = t.origin(co['rv']['ops'][0]) if co['rv']['ops'] else {'o': 'none'}
-                cap_ok = cap['o'] == 'call' and call_matches(cap['term'], 'OccupiedSite::transform')
-                if l['o'] == 'arg' and l['l'] == 2 and r['o'] == 'arg' and r['l'] == 1 and cap_ok:
-                    ok1 = True
-                elif l['o'] == 'arg' and l['l'] == 1 and r['o'] == 'arg' and r['l'] == 2:
-                    why = 'the product is `site transform * operation`: the symmetry operation must act on the left'
-                else:
-                    why = 'operands of the product are not (operation, site transform): %s, %s, capture %s' % (l['o'], r['o'], cap['o'])
-            else:
-                why = 'the first closure is not a single Transform2 * Transform2 product'
-    rep.check(ok1, 'R2', 'operation-times-site', where(b), 'placement k = operation_k * site transform', why)
+    # ---- R2/R3 what is yielded for one operation: wrap(matrix(operation) * matrix(site transform)) ------------------------
+    _yielded_placement(ctx, nst, ys, lp, b)
     # Transform2 x Transform2 is the matrix product left*right
     mm = [x for x in f.bodies.values() if x.file.endswith('transform.rs') and x.fn_name == 'mul' and not x.is_closure
           and 'Transform2' in x.local_ty(1) and 'Transform2' in x.local_ty(2)]
@@ -188,24 +157,69 @@ def run(ctx):
             rep.check(bad['lin'] is None and bad['shape'] is None, 'R3', 'wrap-keeps-linear-part', where(pb), 'only the two translation entries change',
                       bad['lin'] or ('result is not a 3x3 transform: %s' % bad['shape']))
             rep.sample('periodic: %d path(s), each x,y -> ((u - o) rem P + P) rem P + o' % len(outs))
-    okc = False
-    why = 'second map closure not found'
-    if len(maps) >= 2:
-        co = t.origin(maps[1][1]['args'][1])
-        cb = f.body(co['rv']['closure']) if co['o'] == 'rvalue' and co['rv'].get('agg') == 'closure' else None
-        if cb is not None:
-            rep.saw(cb)
-            tc = Tracer(cb)
-            calls = list(cb.calls())
-            if len(calls) == 1 and call_matches(calls[0][1], 'Transform2::periodic') and calls[0][1]['dest']['l'] == 0:
-                a = calls[0][1]['args']
-                recv = tc.origin(a[0])
-                P = const_value(tc.origin(a[1]).get('c', {}))
-                o = const_value(tc.origin(a[2]).get('c', {}))
-                okc = recv.get('l') == 2 and P == 1.0 and o == -0.5
-                why = 'wrap called with period %s offset %s on %s' % (P, o, recv.get('o'))
-            else:
-                why = 'the second closure is not a single periodic() call'
-    rep.check(okc, 'R3', 'wrap-into-[-1/2,1/2)', where(b), 'periodic(1, -1/2) applied to every placement', why)
     nper = [k for k, s in ctx.cg.callers_of(lambda nm: nm == 'transform::Transform2::periodic')]
     rep.check(len(nper) == 1, 'R3', 'single-wrap-site', where(b), 'one caller of periodic', 'periodic is called from %d places' % len(nper))
+
+
+def _yielded_placement(ctx, nst, ys, lp, b):
+    rep, f = ctx.rep, ctx.facts
+    tb = f.one(self_adt=SITE, name='transform')
+    if lp is None or len(ys) != 1 or tb is None:
+        rep.fail('R2', 'operation-times-site', where(b), 'the placement loop was not recognised', 'undecidable-shape')
+        rep.fail('R3', 'wrap-into-[-1/2,1/2)', where(b), 'the placement loop was not recognised', 'undecidable-shape')
+        return
+    ybb = ys[0][0]
+    sx, outs = nst.iteration(lp, {ybb})
+    n = Norm()
+    it = 'item%d' % lp['header']
+    ok2 = ok3 = bool(outs) and not sx.aborted
+    why2 = why3 = 'one iteration is not loop-free'
+    # reference: the site transform's matrix as the code computes it
+    sxs = SymEx(f)
+    so = sxs.run(tb, [SYM('self')])
+    if len(so) != 1 or sxs.aborted:
+        ok2 = ok3 = False
+        why2 = why3 = 'OccupiedSite::transform is not a single loop-free path'
+    if ok2:
+        try:
+            S = matrix_of(sxs, so[0].st, sxs.deep(so[0].st, so[0].ret), n)
+            E = {(i, j): n.atom('%s.0[%d,%d]' % (it, i, j)) for i in range(3) for j in range(3)}
+
+            def prod(A, B, i, j):
+                acc = None
+                for k in range(3):
+                    term = A[(i, k)] * B[(k, j)]
+                    acc = term if acc is None else acc + term
+                return acc
+            for o in outs:
+                if not (isinstance(o.ret, tuple) and o.ret[0] == 'stopped' and o.ret[1] == ybb):
+                    ok2 = ok3 = False
+                    why2 = why3 = 'an iteration does not reach the yield'
+                    continue
+                conds = [c for c in o.pc if c[0] != 'assume']
+                v = nst.arg_values(sx, o, ybb)[0]
+                got = matrix_of(sx, o.st, v, n)
+                lin = [(i, j) for i in range(3) for j in range(3) if (i, j) not in ((0, 2), (1, 2))]
+                if all(got[k].equals(prod(E, S, *k)) for k in lin):
+                    pass
+                elif all(got[k].equals(prod(S, E, *k)) for k in lin):
+                    ok2, why2 = False, 'the product is `site transform * operation`: the symmetry operation must act on the left'
+                else:
+                    ok2, why2 = False, 'the rotation/reflection part of the placement is not operation x site transform'
+                P, off = n.const(1), n.const(Fraction(-1, 2))
+                for i in (0, 1):
+                    u = prod(E, S, i, 2)
+                    forms = [n.fn('rem', n.fn('rem', u - off, P) + P, P) + off, n.fn('rem_euclid', u - off, P) + off,
+                             u - P * n.fn('floor', (u - off) / P)]
+                    if not any(got[(i, 2)].equals(fm) for fm in forms):
+                        ok3 = False
+                        if got[(i, 2)].equals(u):
+                            why3 = 'the placement is not wrapped into the cell at all'
+                        else:
+                            why3 = 'translation %d of the placement is %s (conditions %s), not (operation x site) wrapped with period 1 ' \
+                                   'about -1/2' % (i, got[(i, 2)].canon()[:160], [str(n.cond(c))[:60] for c in conds][:3])
+        except (NotNumeric, TypeError, KeyError) as ex:
+            ok2 = ok3 = False
+            why2 = why3 = 'the yielded value is not a 3x3 transform: %s' % str(ex)[:100]
+    rep.check(ok2, 'R2', 'operation-times-site', where(b), 'placement k = operation_k * site transform (exact normal forms)', why2)
+    rep.check(ok3, 'R3', 'wrap-into-[-1/2,1/2)', where(b), 'periodic(1, -1/2) applied to every placement (exact normal forms)', why3)
